@@ -53,6 +53,25 @@ func (v *Verifier) dispatchCall(st *State, call *ssa.CallCommon, fnv Value, args
 		v.callFunc(st, call, fnv.clo.fn, fnv.clo.bindings, args, ins, k)
 		return
 	}
+	// call through a captured variable that holds, in the enclosing function, exactly one closure
+	// literal (`matches := func(...)...`): the callee is that literal; the variables it captures
+	// itself are unknown here (arbitrary values of their types)
+	if u, ok := call.Value.(*ssa.UnOp); ok && u.Op == token.MUL {
+		if fv, ok := u.X.(*ssa.FreeVar); ok {
+			if lit := uniqueClosureOf(fv); lit != nil && !v.onStack(st, lit) {
+				var binds []Value
+				for _, lfv := range lit.FreeVars {
+					cell := st.allocBlock()
+					val := st.freshValue("cap_"+lfv.Name(), derefType(lfv.Type()))
+					st.assumeWF(val)
+					st.storeAt(cell, IntLit(0), val)
+					binds = append(binds, Value{T: lfv.Type(), L: []*Term{cell, IntLit(0)}})
+				}
+				v.callFunc(st, call, lit, binds, args, ins, k)
+				return
+			}
+		}
+	}
 	// call through a package-level function variable that carries a contract
 	if u, ok := call.Value.(*ssa.UnOp); ok {
 		if g, ok := u.X.(*ssa.Global); ok && g.Pkg != nil {
@@ -1604,4 +1623,57 @@ func (v *Verifier) ghostOnlyModifies(c *ssa.CallCommon) ([]string, bool) {
 		out = append(out, id.Name)
 	}
 	return out, true
+}
+
+// uniqueClosureOf: fv is a captured variable of function type; if the variable it stands for is
+// assigned exactly once in the enclosing function, and that with a closure literal, return the literal.
+func uniqueClosureOf(fv *ssa.FreeVar) *ssa.Function {
+	fn := fv.Parent()
+	if fn == nil || fn.Parent() == nil {
+		return nil
+	}
+	idx := -1
+	for i, x := range fn.FreeVars {
+		if x == fv {
+			idx = i
+		}
+	}
+	if idx < 0 {
+		return nil
+	}
+	parent := fn.Parent()
+	var found *ssa.Function
+	for _, b := range parent.Blocks {
+		for _, ins := range b.Instrs {
+			mc, ok := ins.(*ssa.MakeClosure)
+			if !ok || mc.Fn != ssa.Value(fn) || idx >= len(mc.Bindings) {
+				continue
+			}
+			var lit *ssa.Function
+			switch src := mc.Bindings[idx].(type) {
+			case *ssa.Alloc:
+				n := 0
+				if refs := src.Referrers(); refs != nil {
+					for _, r := range *refs {
+						if st, ok := r.(*ssa.Store); ok && st.Addr == ssa.Value(src) {
+							n++
+							if m2, ok := st.Val.(*ssa.MakeClosure); ok {
+								lit, _ = m2.Fn.(*ssa.Function)
+							}
+						}
+					}
+				}
+				if n != 1 {
+					lit = nil
+				}
+			case *ssa.FreeVar:
+				lit = uniqueClosureOf(src) // captured one level further up
+			}
+			if lit == nil || (found != nil && found != lit) {
+				return nil
+			}
+			found = lit
+		}
+	}
+	return found
 }
